@@ -59,7 +59,7 @@ func (d *defaultReconnectPolicy) NextDelay() time.Duration {
 	exp := time.Millisecond << d.attempts
 	d.attempts++
 	delay := d.baseDelay + exp + jitter
-	if delay > d.maxDelay {
+	if delay > d.maxDelay || delay < d.baseDelay { // The sum overflows for very large base delays
 		delay = d.maxDelay
 	}
 	return delay
